@@ -10,61 +10,61 @@ Open Scope string_scope.
 
 (** ** Naming *)
 
-(** The four prefixed helper roles of [__init__] (factory, converter, validator,
-    Attribute) never produce the same name, whatever the field names: the F6 repair. *)
+(** The six helper roles (custom repr, eq/hash key, factory, converter, validator,
+    Attribute) are named [__attr_<role>_<field>]; no two roles ever produce the same
+    name, whatever the field names. *)
 Theorem role_prefixes_disjoint : forall r1 r2 n m,
-  is_prefix_role r1 = true -> is_prefix_role r2 = true ->
   helper_name r1 n = helper_name r2 m -> r1 = r2.
 Proof. exact role_prefixes_disjoint_l. Qed.
 Print Assumptions role_prefixes_disjoint.
 
-(** The scheme before the repair ([__attr_<n>] for the Attribute) is refuted. *)
-Theorem old_field_scheme_refuted :
-  exists r n m, is_prefix_role r = true /\ r <> RField /\ old_field_name n = helper_name r m.
-Proof. exact old_scheme_refuted. Qed.
-Print Assumptions old_field_scheme_refuted.
-
-(** All six roles over all fields: distinct (role, field) pairs get distinct names
-    when the field names of custom-repr / eq-key helpers satisfy [name_guard]. *)
+(** All six roles over all fields: equal names only for equal (role, field) pairs.
+    No guard on field names. *)
 Theorem helper_names_injective : forall r1 n r2 m,
-  name_guard r1 n = true -> name_guard r2 m = true ->
   helper_name r1 n = helper_name r2 m -> r1 = r2 /\ n = m.
 Proof. exact helper_names_injective_l. Qed.
 Print Assumptions helper_names_injective.
 
 (** ... and no helper name equals a fixed name (pinned builtin, attrs object,
-    local variable, method name), without any guard. *)
+    local variable, method name). *)
 Theorem helper_names_not_fixed : forall r n, ~ In (helper_name r n) fixed_names.
 Proof. exact helper_not_fixed_l. Qed.
 Print Assumptions helper_names_not_fixed.
 
-(** The guard is tight: every name it rejects collides with the helper of some
-    other possible field. *)
-Theorem name_guard_tight : forall r n,
-  name_guard r n = false -> exists r' m, r' <> r /\ helper_name r n = helper_name r' m.
-Proof. exact name_guard_tight_l. Qed.
-Print Assumptions name_guard_tight.
+(** What the repairs excluded.  [__attr_<n>] for the Attribute helper (before
+    cc43dc1) collides with the converter helper of another field: *)
+Theorem old_field_scheme_refuted :
+  exists r n m, is_prefix_role r = true /\ r <> RField /\ old_field_name n = old_helper_name r m.
+Proof. exact old_scheme_refuted. Qed.
+Print Assumptions old_field_scheme_refuted.
 
-(** A simple sufficient condition: the field name does not start with [_attr] or
-    [__attr] (private names such as [_x], [__x] are fine). *)
-Theorem plain_names_satisfy_guard : forall r n, plain_name n = true -> name_guard r n = true.
-Proof. exact plain_name_guard_l. Qed.
-Print Assumptions plain_names_satisfy_guard.
-
-(** Without the guard the scheme is not injective (finding K13): the custom repr of
-    field [__attr_factory] and the factory of field [repr] share a name, as do the eq
-    key of [_attr_converter_b] and the converter of [b_key]. *)
-Theorem helper_names_injective_unguarded_refuted :
-  (helper_name RRepr "__attr_factory" = helper_name RFactory "repr") /\
-  (helper_name RKey "_attr_converter_b" = helper_name RConverter "b_key") /\
+(** [<n>_repr] / [_<n>_key] (before b8060e0) collide with the factory / converter
+    helper of another field: *)
+Theorem old_repr_key_scheme_refuted :
+  (old_helper_name RRepr "__attr_factory" = old_helper_name RFactory "repr") /\
+  (old_helper_name RKey "_attr_converter_b" = old_helper_name RConverter "b_key") /\
   name_guard RRepr "__attr_factory" = false /\ name_guard RKey "_attr_converter_b" = false.
-Proof. exact helper_names_unguarded_refuted. Qed.
-Print Assumptions helper_names_injective_unguarded_refuted.
+Proof. exact old_helper_names_unguarded_refuted. Qed.
+Print Assumptions old_repr_key_scheme_refuted.
+
+(** The old scheme was injective exactly under [name_guard] (sufficient, and tight:
+    every rejected name collided with the helper of some other possible field). *)
+Theorem old_scheme_injective_under_guard : forall r1 n r2 m,
+  name_guard r1 n = true -> name_guard r2 m = true ->
+  old_helper_name r1 n = old_helper_name r2 m -> r1 = r2 /\ n = m.
+Proof. exact old_helper_names_injective_l. Qed.
+Print Assumptions old_scheme_injective_under_guard.
+
+Theorem old_name_guard_tight : forall r n,
+  name_guard r n = false -> exists r' m, r' <> r /\ old_helper_name r n = old_helper_name r' m.
+Proof. exact old_name_guard_tight_l. Qed.
+Print Assumptions old_name_guard_tight.
 
 (** ** Hermeticity *)
 
 (** For EVERY namespace of the defining module (including its own [__builtins__]
-    entry) and every class specification satisfying the guard: each free name of each
+    entry) and every class specification satisfying the guard (no init alias equals a
+    name the generated [__init__] uses; nothing is required of field names): each free name of each
     generated method, in the function body and in default-argument expressions,
     resolves in the assembled globals to exactly the object attrs means. *)
 Theorem hermetic : forall module_ns s m st n b,
@@ -103,26 +103,10 @@ Theorem hermetic_buggy_builtin_refuted :
 Proof. exact hermetic_buggy_builtin_refuted_l. Qed.
 Print Assumptions hermetic_buggy_builtin_refuted.
 
-(** The guard cannot be dropped: K13 (naming) and K9 (an init alias named like
-    something [__init__] uses). *)
-Theorem hermetic_naming_unguarded_refuted :
-  naming_guard k13_spec = false /\ alias_guard k13_spec = true /\
-  In (Body, "__attr_factory_repr", BHelper RRepr "__attr_factory") (free_refs k13_spec MRepr) /\
-  resolve (assemble [] k13_spec) (locals_at k13_spec MRepr Body) "__attr_factory_repr"
-  = RGlobal (BHelper RFactory "repr").
-Proof. exact hermetic_naming_unguarded_refuted_l. Qed.
-Print Assumptions hermetic_naming_unguarded_refuted.
-
-Theorem hermetic_key_naming_unguarded_refuted :
-  naming_guard k13b_spec = false /\ alias_guard k13b_spec = true /\
-  In (Body, "__attr_converter_b_key", BHelper RKey "_attr_converter_b") (free_refs k13b_spec MEq) /\
-  resolve (assemble [] k13b_spec) (locals_at k13b_spec MEq Body) "__attr_converter_b_key"
-  = RGlobal (BHelper RConverter "b_key").
-Proof. exact hermetic_naming_unguarded_refuted2_l. Qed.
-Print Assumptions hermetic_key_naming_unguarded_refuted.
-
+(** The guard cannot be dropped: K9 (an init alias named like something [__init__]
+    uses). *)
 Theorem hermetic_alias_unguarded_refuted :
-  naming_guard k9_spec = true /\ alias_guard k9_spec = false /\
+  guard k9_spec = false /\
   In (Body, "attr_dict", BAttrs "attr_dict") (free_refs k9_spec MInit) /\
   resolve (assemble [] k9_spec) (locals_at k9_spec MInit Body) "attr_dict" = RLocal.
 Proof. exact hermetic_alias_unguarded_refuted_l. Qed.
